@@ -281,6 +281,10 @@ impl Recv {
                 .pending_recv
                 .push_back(&mut self.buffer, Event::Headers(message));
             stream.notify_recv();
+            if stream.state.is_recv_end_stream() {
+                // The stream has ended: no more PUSH_PROMISE frames can arrive on it.
+                stream.notify_push();
+            }
 
             // Only servers can receive a headers frame that initiates the stream.
             // This is verified in `Streams` before calling this function.
@@ -459,6 +463,8 @@ impl Recv {
             .pending_recv
             .push_back(&mut self.buffer, Event::Trailers(trailers));
         stream.notify_recv();
+        // The stream has ended: no more PUSH_PROMISE frames can arrive on it.
+        stream.notify_push();
 
         Ok(())
     }
@@ -808,6 +814,10 @@ impl Recv {
         // Push the frame onto the recv buffer
         stream.pending_recv.push_back(&mut self.buffer, event);
         stream.notify_recv();
+        if stream.state.is_recv_end_stream() {
+            // The stream has ended: no more PUSH_PROMISE frames can arrive on it.
+            stream.notify_push();
+        }
 
         Ok(())
     }
